@@ -39,6 +39,8 @@ type DataSpec struct {
 	Prop  []byte     `json:"prop,omitempty"` // optional property (code 1) value
 	Pipe  []DataSpec `json:"pipe,omitempty"`
 	Array bool       `json:"array,omitempty"`
+	// Short (incr): the operand is sent as this many bytes (little-endian, cut or zero-padded) instead of 8
+	Short int `json:"short,omitempty"`
 }
 
 func keyBytes(k int) [16]byte {
@@ -98,6 +100,26 @@ func (d *DataSpec) build() *protocol.LockCommandData {
 	case "unset":
 		return protocol.NewLockCommandDataUnsetData()
 	case "incr":
+		if d.Short > 0 {
+			var cd *protocol.LockCommandData
+			if props != nil {
+				cd = protocol.NewLockCommandDataIncrDataWithProperty(d.Num, props)
+			} else {
+				cd = protocol.NewLockCommandDataIncrData(d.Num)
+			}
+			// the frame ends with the 8 operand bytes: cut or pad them, then set the length prefix anew
+			frame := append([]byte(nil), cd.Data[:len(cd.Data)-8]...)
+			for i := 0; i < d.Short; i++ {
+				if i < 8 {
+					frame = append(frame, byte(uint64(d.Num)>>(8*uint(i))))
+				} else {
+					frame = append(frame, 0)
+				}
+			}
+			n := len(frame) - 4
+			frame[0], frame[1], frame[2], frame[3] = byte(n), byte(n>>8), byte(n>>16), byte(n>>24)
+			return protocol.NewLockCommandDataFromOriginBytes(frame)
+		}
 		if props != nil {
 			return protocol.NewLockCommandDataIncrDataWithProperty(d.Num, props)
 		}
